@@ -88,6 +88,19 @@ def containsClock (iv : TimeInterval) (k : Clock) : Bool :=
   inField iv.weekdays (incMatch k.weekday) &&
   inField iv.years (incMatch k.year)
 
+/-- The specification (AM.Props.C15 `Spec`) as a computable predicate on civil
+    fields, without `clamp`: the drivers evaluate it on the fields Go reports.
+    `specB_iff` proves it equivalent to the declarative `Spec`. -/
+def domSpecB (dim day : Int) (r : Range) : Bool :=
+  decide (resolveDay dim r.lo ≤ day ∧ day ≤ resolveDay dim r.hi ∧ 1 ≤ day ∧ day ≤ dim)
+
+def specB (iv : TimeInterval) (c : Civil) (wd mod : Int) : Bool :=
+  inField iv.times (fun r => decide (r.lo ≤ mod ∧ mod < r.hi)) &&
+  inField iv.daysOfMonth (domSpecB (daysInMonth c.year c.month) c.day) &&
+  inField iv.months (fun r => decide (r.lo ≤ c.month ∧ c.month ≤ r.hi)) &&
+  inField iv.weekdays (fun r => decide (r.lo ≤ wd ∧ wd ≤ r.hi)) &&
+  inField iv.years (fun r => decide (r.lo ≤ c.year ∧ c.year ≤ r.hi))
+
 /-- Offset under which `ContainsTime` reads the instant: the interval's own
     location if it has one, else the location of the `time.Time` it was given. -/
 def effOffset (iv : TimeInterval) (tz : String → Int) (callerOff : Int) : Int :=
